@@ -200,3 +200,27 @@ def run(ctx):
         for s in wi:
             lib.result_guards(ctx, '6a reindex-skips-present-entries', wl, cp, s, 'an entry is inserted into the new index only depending on the presence test (no duplicates)')
         lib.precedes(ctx, '6b presence-test-first', wl, cp, wi, 'the presence test precedes the insert')
+    # 7. a key found in an OLDER index whose value moves to another slot: the new address is entered into the current index, and
+    # the entry in the older index (which now points at the freed slot) has to go in the same plan - reindexing would otherwise
+    # carry it over, and a later tenant of the slot whose stored key tail agrees is served for the removed key (F39)
+    for wb in [b for b in F.bodies.values() if b.call_sites('column::Column::write_existing_value_plan') and b.call_sites('index::IndexTable::write_insert_plan')]:
+        ins = [bi for bi in wb.call_sites('index::IndexTable::write_insert_plan') if '.Tables.index' in lib.receiver_fields(wb, wb.term(bi), 0)]
+        rem = [bi for bi in wb.call_sites('index::IndexTable::write_remove_plan') if '.Tables.index' not in lib.receiver_fields(wb, wb.term(bi), 0)]
+        eqs = [bi for bi, t in wb.calls() if call_matches(t, ['re:index::TableId as .*PartialEq.*::(eq|ne)$'])]
+        same, edges = set(), []
+        for x in eqs:
+            ne = call_matches(wb.term(x), ['re:::ne$'])       # `!=` is true when the tables differ
+            for (sb, tr, fa) in lib.bool_outcome_edges(wb, [x]):
+                edges.append(sb)
+                same.add(fa if ne else tr)
+        ctx.ob('7a0 moved-value-anchors %s' % wb.path, 'anchor', wb.path, 'the insert into the current index, the removal from the index the key was found in, and the comparison of the two table ids were found',
+               len(ins) >= 1 and len(eqs) >= 1 and bool(edges), 'insert %s remove %s id comparisons %s' % (ins, rem, eqs))
+        errs = core.error_exit_blocks(wb)
+        for i in ins:
+            w1 = wb.find_path([0], {i}, removed=set(rem), removed_edges=frozenset(same))
+            w2 = wb.find_path(list(wb.succ(i)), wb.return_blocks(), removed=set(rem) | errs, removed_edges=frozenset(same)) if w1 else None
+            ok = not (w1 and w2)
+            ctx.ob('7a moved-value-leaves-no-entry-in-an-older-index %s' % wb.path, 'K1-must-pass', wb.path,
+                   'unless the key was found in the current index, a plan that enters the new address of a moved value also removes the entry of the index the key was found in',
+                   ok, '' if ok else 'entry kept in the older index: ' + lib.short_path(wb, w1 + w2), wb.loc(i))
+
